@@ -10,9 +10,7 @@ does for them.  The coroutines become functions of what the terminal will answer
 
 and produce the trace of bus accesses (status polls, the mailbox write with its bytes, the
 write of the mailbox's last byte, the mailbox read) and the way the call ends.
-Python is followed line by line, including the places where it does not do what was meant:
-`ret += data[3:]` extends a list by ints, `3 + (sdocmd >> 1) & 7` is `(3 + …) & 7`,
-`data` is rebound to the response before the download segment loop, `odata` does not exist.
+Python is followed line by line (the code after the `fix:` commits 7fef356 and a0eb33f).
 
 Domain (not checked by the code, assumed by the model): `16 ≤ outSz`, `16 ≤ inSz`,
 `index < 65536`, `subindex < 256`, every mail is `inSz` bytes long as read. -/
@@ -42,8 +40,6 @@ deriving Repr, DecidableEq
 inductive Err where
   | blocked        -- waits for mail that never comes
   | ethercat       -- EtherCatError
-  | typeError      -- b"".join over a list that holds ints
-  | nameError      -- `odata`
   | valueError     -- MBXType(x) for an x that is no mailbox type
   | structError    -- unpack of a too short response / pack of a too large length
 deriving Repr, DecidableEq
@@ -150,63 +146,51 @@ def sdoHdr (coe cmd idx sub : Nat) : List UInt8 :=
 /-- `1 if subindex is None else subindex` -/
 def subOr1 (p : Params) : Nat := p.sub.getD 1
 
+/-- `mbx_send(…)` followed by `type = None; while type is not MBXType.COE: type, data = await self.mbx_recv()`:
+every request of `sdo_read`/`sdo_write` is answered this way -/
+def exchange (body : List UInt8) : M (List UInt8) := do
+  mbxSend body
+  recvCoe
+
 /-! ### sdo_read -/
 
-/-- the elements of the Python list `ret` -/
-inductive Item where
-  | bytes (b : List UInt8)
-  | int (n : UInt8)
-deriving Repr, DecidableEq
-
-/-- `b"".join(ret)`: `none` is the TypeError -/
-def joinItems : List Item → Option (List UInt8)
-  | [] => some []
-  | .bytes b :: t => (joinItems t).map (b ++ ·)
-  | .int _ :: _ => none
-
 /-- after the `while`: `if retsize != size: raise`; `return b"".join(ret)` -/
-def finish (size : Nat) (ret : List Item) (retsize : Int) : M (List UInt8) :=
-  if retsize ≠ (size : Int) then fail .ethercat
-  else match joinItems ret with
-    | some b => pure b
-    | none => fail .typeError
+def finish (size : Nat) (ret : List (List UInt8)) (retsize : Nat) : M (List UInt8) :=
+  if retsize ≠ size then fail .ethercat else pure ret.flatten
 
 /-- the upload segment request: `"HBHB4x", SDOREQ << 12, SEG_UP_REQ + toggle, index, sub or 1` -/
 def segUpReq (p : Params) (toggle : Nat) : List UInt8 :=
   sdoHdr (coe_SDOREQ <<< 12) (od_SEG_UP_REQ + toggle) p.index (subOr1 p) ++ zeros 4
 
 /-- `while retsize < size:` — one round per unit of fuel (each round consumes a mail) -/
-def segLoop (p : Params) : Nat → Nat → List Item → Int → Nat → M (List UInt8)
+def segLoop (p : Params) : Nat → Nat → List (List UInt8) → Nat → Nat → M (List UInt8)
   | 0, _, _, _, _ => fail .blocked
   | fuel + 1, size, ret, retsize, toggle =>
-    if retsize < (size : Int) then do
-      mbxSend (segUpReq p toggle)
-      let (typ, data) ← mbxRecv
-      if typ ≠ mbx_COE then fail .ethercat
-      else if data.length < 3 then fail .structError           -- unpack("<HB", data[:3])
+    if retsize < size then do
+      let data ← exchange (segUpReq p toggle)
+      if data.length < 3 then fail .structError                 -- unpack("<HB", data[:3])
       else
         let coecmd := u16 data 0
         let sdocmd := byte data 2
         if coecmd >>> 12 ≠ coe_SDORES then fail .ethercat
         else if sdocmd &&& 0xe0 ≠ 0 then fail .ethercat
         else
-          -- if sdocmd & 1 and len(data) == 7: data = data[:3 + (sdocmd >> 1) & 7]
-          let data := if sdocmd &&& 1 ≠ 0 ∧ data.length = 7 then data.take ((3 + (sdocmd >>> 1)) &&& 7) else data
-          -- ret += data[3:]      (a list extended by a bytes object: its ints)
-          let ret := ret ++ (data.drop 3).map Item.int
-          let retsize := retsize + ((data.length : Int) - 3)
-          if sdocmd &&& 1 ≠ 0 then finish size ret retsize      -- break
+          -- if len(data) == 10: data = data[:10 - ((sdocmd >> 1) & 7)]
+          let data := if data.length = 10 then data.take (10 - ((sdocmd >>> 1) &&& 7)) else data
+          let ret := ret ++ [data.drop 3]                        -- ret.append(data[3:])
+          let retsize := retsize + (data.length - 3)             -- len(data) >= 3 here
+          if sdocmd &&& 1 ≠ 0 then finish size ret retsize       -- break
           else segLoop p fuel size ret retsize (toggle ^^^ 0x10)
     else finish size ret retsize
-
-/-- the upload request: `"HBHB4x", SDOREQ << 12, UP_REQ_CA if subindex is None else UP_REQ, index, sub or 1` -/
-def upReq (p : Params) : List UInt8 :=
-  sdoHdr (coe_SDOREQ <<< 12) (if p.sub.isNone then od_UP_REQ_CA else od_UP_REQ) p.index (subOr1 p) ++ zeros 4
 
 /-- `ret = [data[10:]]; retsize = len(ret[0]); toggle = 0` and into the `while`; the fuel is one more than
 the mails that are left, each round consumes one -/
 def segStart (p : Params) (size : Nat) (first : List UInt8) : M (List UInt8) :=
-  fun s => segLoop p (s.mails.length + 1) size [.bytes first] first.length 0 s
+  fun s => segLoop p (s.mails.length + 1) size [first] first.length 0 s
+
+/-- the upload request: `"HBHB4x", SDOREQ << 12, UP_REQ_CA if subindex is None else UP_REQ, index, sub or 1` -/
+def upReq (p : Params) : List UInt8 :=
+  sdoHdr (coe_SDOREQ <<< 12) (if p.sub.isNone then od_UP_REQ_CA else od_UP_REQ) p.index (subOr1 p) ++ zeros 4
 
 /-- what `sdo_read` does with the first CoE mail -/
 def readCont (p : Params) (data : List UInt8) : M (List UInt8) :=
@@ -224,72 +208,58 @@ def readCont (p : Params) (data : List UInt8) : M (List UInt8) :=
     else segStart p size (data.drop 10)
 
 def sdoRead (p : Params) : M (List UInt8) := do
-  mbxSend (upReq p)
-  let data ← recvCoe
+  let data ← exchange (upReq p)
   readCont p data
 
 /-! ### sdo_write -/
 
-/-- `coecmd, sdocmd, idx, subidx = unpack("<HBHB", data[:6])` and the two tests, in the order of the
-non-expedited branches -/
-def checkDown (p : Params) (typ : Nat) (data : List UInt8) : M Unit :=
-  if typ ≠ mbx_COE then fail .ethercat
-  else if data.length < 6 then fail .structError
-  else if u16 data 0 >>> 12 ≠ coe_SDORES then fail .ethercat
-  else if u16 data 3 ≠ p.index ∨ p.sub ≠ some (byte data 5) then fail .ethercat
-  else pure ()
-
-/-- `"HBHB4x", SDOREQ << 12, cmd + toggle, index, sub or 1, data=d` -/
-def segDownReq (p : Params) (cmd : Nat) (d : List UInt8) : List UInt8 :=
-  sdoHdr (coe_SDOREQ <<< 12) cmd p.index (subOr1 p) ++ zeros 4 ++ d
-
-/-- `while stop < len(data):` where `data` is by now the last *response* -/
-def downLoop (p : Params) : Nat → Nat → List UInt8 → Nat → M (List UInt8)
-  | 0, _, _, _ => fail .blocked
-  | fuel + 1, stop, data, toggle =>
-    if stop < data.length then
-      let start := stop
-      let stop := min data.length (start + p.outSz - 9)
-      if stop = data.length then do
-        let cmd := if stop - start < 7 then 1 + ((7 - (stop - start)) <<< 1) else 1
-        let d := if stop - start < 7 then slice data start stop ++ zeros (7 - (stop - start)) else slice data start stop
-        mbxSend (segDownReq p (cmd + toggle) d)
-        let (typ, data) ← mbxRecv
-        checkDown p typ data
-        downLoop p fuel stop data (toggle ^^^ 0x10)
-      else downLoop p fuel stop data (toggle ^^^ 0x10)
-    else pure []
+/-- `0 < len(data) <= 4 and subindex is not None` -/
+def expedited (p : Params) (v : List UInt8) : Bool := 0 < v.length && v.length ≤ 4 && p.sub.isSome
 
 /-- `"HBHB4s", SDOREQ << 12, DOWN_EXP | (((4 - len(data)) << 2) & 0xc), index, subindex, data` -/
 def expReq (p : Params) (v : List UInt8) : List UInt8 :=
   sdoHdr (coe_SDOREQ <<< 12) (od_DOWN_EXP ||| (((4 - v.length) <<< 2) &&& 0xc)) p.index (subOr1 p)
     ++ (v ++ zeros (4 - v.length))
 
-/-- `"HBHB4x", SDOREQ << 12, DOWN_INIT_CA if subindex is None else DOWN_INIT, index, sub or 1, data=data[:stop]` -/
+/-- `"HBHBI", SDOREQ << 12, DOWN_INIT_CA if subindex is None else DOWN_INIT, index, sub, len(data), data=data[:stop]` -/
 def initDownReq (p : Params) (v : List UInt8) : List UInt8 :=
   sdoHdr (coe_SDOREQ <<< 12) (if p.sub.isNone then od_DOWN_INIT_CA else od_DOWN_INIT) p.index (subOr1 p)
-    ++ zeros 4 ++ v.take (min v.length (p.outSz - 16))
+    ++ (encLE 4 v.length ++ v.take (min v.length (p.outSz - 16)))
 
-/-- `toggle = 0` and into the `while stop < len(data)`; fuel: every round either consumes a mail or moves
-`stop` forward inside a response of at most `inSz` bytes -/
-def downStart (p : Params) (stop : Nat) (data : List UInt8) : M (List UInt8) :=
-  fun s => downLoop p ((s.mails.length + 1) * (p.inSz + 2)) stop data 0 s
+/-- the command byte of a download segment: `cmd = toggle`, `|= 1` on the last one, `|= (7 - len(d)) << 1` below 7 bytes -/
+def segDownCmd (toggle : Nat) (last : Bool) (n : Nat) : Nat :=
+  (toggle ||| (if last then 1 else 0)) ||| (if n < 7 then (7 - n) <<< 1 else 0)
 
-def sdoWrite (p : Params) (v : List UInt8) : M (List UInt8) :=
-  if v.length ≤ 4 ∧ p.sub.isSome then do
-    mbxSend (expReq p v)
-    let (typ, data) ← mbxRecv
-    if typ ≠ mbx_COE then fail .nameError                        -- the message mentions `odata`
-    else if data.length < 6 then fail .structError
-    else if u16 data 3 ≠ p.index ∨ p.sub ≠ some (byte data 5) then fail .ethercat
-    else if u16 data 0 >>> 12 ≠ coe_SDORES then fail .ethercat
+/-- `"HB", SDOREQ << 12, cmd, data=d` with `d` padded to 7 bytes -/
+def segDownReq (toggle : Nat) (last : Bool) (d : List UInt8) : List UInt8 :=
+  encLE 2 (coe_SDOREQ <<< 12) ++ [UInt8.ofNat (segDownCmd toggle last d.length)] ++ (d ++ zeros (7 - d.length))
+
+/-- `while stop < len(data):` over the value itself; one round per unit of fuel (each round consumes a mail) -/
+def downLoop (p : Params) (v : List UInt8) : Nat → Nat → Nat → M (List UInt8)
+  | 0, _, _ => fail .blocked
+  | fuel + 1, stop, toggle =>
+    if stop < v.length then do
+      let start := stop
+      let stop := min v.length (start + p.outSz - 9)
+      let rdata ← exchange (segDownReq toggle (stop = v.length) (slice v start stop))
+      if rdata.length < 3 then fail .structError                 -- unpack("<HB", rdata[:3])
+      else if u16 rdata 0 >>> 12 ≠ coe_SDORES ∨ byte rdata 2 ≠ (0x20 ||| toggle) then fail .ethercat
+      else downLoop p v fuel stop (toggle ^^^ 0x10)
     else pure []
-  else do
-    let stop := min v.length (p.outSz - 16)
-    mbxSend (initDownReq p v)
-    let (typ, data) ← mbxRecv
-    checkDown p typ data
-    downStart p stop data
+
+def downStart (p : Params) (v : List UInt8) (stop : Nat) : M (List UInt8) :=
+  fun s => downLoop p v (s.mails.length + 1) stop 0 s
+
+/-- what `sdo_write` does with the first CoE mail: `unpack("<HBHB", rdata[:6])`, the two tests, the segments -/
+def writeCont (p : Params) (v : List UInt8) (rdata : List UInt8) : M (List UInt8) :=
+  if rdata.length < 6 then fail .structError
+  else if u16 rdata 0 >>> 12 ≠ coe_SDORES then fail .ethercat
+  else if u16 rdata 3 ≠ p.index ∨ byte rdata 5 ≠ subOr1 p then fail .ethercat
+  else downStart p v (if expedited p v then v.length else min v.length (p.outSz - 16))
+
+def sdoWrite (p : Params) (v : List UInt8) : M (List UInt8) := do
+  let rdata ← exchange (if expedited p v then expReq p v else initDownReq p v)
+  writeCont p v rdata
 
 /-! ### entry points -/
 
